@@ -378,6 +378,7 @@ def gen_contract(rng, n):
             m = 2 if kind == "isometry_to" else 1
             inp["frames"] = [[L.encM(L.random_rational_isometry(rng, dim, 2)[:2]) for _ in range(cnt)] for _ in range(m)]
             inp["vscale"] = Q.qs(F(rng.randint(1, 9), rng.randint(1, 4)))
+            inp["pscale"] = Q.qs(rng.choice([F(1), F(1), F(-1), F(-5, 2), F(1, 3)]))      # either sheet, any scale
         elif kind in ("timelike_to", "spacelike_to"):
             inp["shape"] = []
             g = L.random_rational_isometry(rng, dim, 2)
@@ -416,11 +417,11 @@ def run_contract(inp):
         iso = P.origin_to(force_oriented=fo)
     elif kind == "tv_origin_to":
         fr = _frames(inp, 0)
-        T = H.TangentVector(H.Point(fr[..., 0, :].copy()), fr[..., 1, :] * float(F(inp["vscale"])))
+        T = H.TangentVector(H.Point(fr[..., 0, :] * float(F(inp.get("pscale", "1")))), fr[..., 1, :] * float(F(inp["vscale"])))
         iso = T.origin_to(force_oriented=fo)
     elif kind == "isometry_to":
         f0, f1 = _frames(inp, 0), _frames(inp, 1)
-        T0 = H.TangentVector(H.Point(f0[..., 0, :].copy()), f0[..., 1, :] * float(F(inp["vscale"])))
+        T0 = H.TangentVector(H.Point(f0[..., 0, :] * float(F(inp.get("pscale", "1")))), f0[..., 1, :] * float(F(inp["vscale"])))
         T1 = H.TangentVector(H.Point(f1[..., 0, :].copy()), f1[..., 1, :].copy())
         iso = T0.isometry_to(T1, force_oriented=fo)
     elif kind == "timelike_to":
@@ -458,12 +459,13 @@ def _expected_rows(inp):
     if kind == "origin_to":
         out = []
         for p, s in zip(inp["pts"], inp["scale"]):
-            x = L.hyperboloid_from_poincare(Q.dec(p))
-            sg = 1 if F(s) > 0 else -1
-            out.append({0: [sg * v for v in x]})
+            # (repaired 9e8c9e6) the representative on the upper sheet is used whatever the sign of the stored one
+            out.append({0: L.hyperboloid_from_poincare(Q.dec(p))})
         return out
     if kind == "tv_origin_to":
-        return [{0: Q.dec(f)[0], 1: Q.dec(f)[1]} for f in inp["frames"][0]]
+        # (repaired 9e8c9e6) (x, v) is moved to the upper sheet: rows x̂ and σ·v̂ with σ the sign of the stored base point
+        sg = 1 if F(inp.get("pscale", "1")) > 0 else -1
+        return [{0: Q.dec(f)[0], 1: [sg * t for t in Q.dec(f)[1]]} for f in inp["frames"][0]]
     if kind in ("timelike_to", "spacelike_to"):
         v = Q.dec(inp["v"])
         q = abs(L.mink(v, v))
@@ -853,12 +855,8 @@ def judge_pack(inp, obs, lr):
     if not obs.get("ref_res", 1.0) <= 1e-9:
         return {"expected": "float64 reference is an isometry", "observed": obs, "tags": dict(tags, reference=True)}
     if "exc" in obs:
-        if obs["exc"] == "UFuncTypeError" and pk in INT_PACKS and inp["kind"] in ("reflection", "spacelike_to", "origin_to", "timelike_to", "tangent"):
-            tags["known"] = "D18"      # integer vectors normalised in place
         return {"expected": "the same isometry as for the float64 packaging of the same values", "observed": obs, "tags": dict(tags, exc=obs["exc"])}
     if not (obs["res"] <= tol and obs["same"]):
-        if inp["kind"] == "rotation" and pk in ("npint64", "npint32", "zerod_int"):
-            tags["known"] = "D17"      # identity allocated with the integer dtype of the angle
         return {"expected": "an isometry, equal to the one built from the float64 packaging of the same values",
                 "observed": {"residual": obs["res"], "equal_to_reference": obs["same"], "M": obs["M"]}, "tags": tags}
     return None
